@@ -174,7 +174,7 @@ def check_hist_add(dim: int, n0: int, n1: int, n2: int, offa: int, offb: int, ne
     pre: 0 <= offa <= 2 and 0 <= offb <= 2
     pre: -2 <= w <= 3
     pre: 0 <= edge_mode <= 3
-    pre: h.in_shard(dim - 1 + B.DIM * (n0 - 1))
+    pre: h.in_shard(dim - 1 + B.DIM * (n0 - 1) + B.DIM * B.NB * edge_mode)
     post: _
     """
     dim, n0, n1, n2, offa = _args(dim, n0, n1, n2, offa)
@@ -407,20 +407,77 @@ def check_to_csv(dim: int, n0: int, n1: int, off: int, dup: bool, ctx_dup: int) 
     return h.ok(True)
 
 
+# ---------------------------------------------------------------- engine R
+# (symbolic real contents x edges x scale x weight; see harness/c12_real.py)
+
+def _real_cases(name):
+    from harness import c12_real as cr
+    shapes = cr.SHAPES_T if h.TIER == "thorough" else cr.SHAPES_Q
+    if name == "hist_scale":
+        return [(sh, el) for sh in shapes for el in (False, True)]
+    if name == "hist_add":
+        cases = [(sh, None) for sh in shapes]
+        for sh in shapes:
+            for ax in range(len(sh)):
+                for i in sorted(set([0, sh[ax] // 2, sh[ax]])):
+                    cases.append((sh, (ax, i)))
+        return cases
+    if name == "set_nevents":
+        return [(sh, inc) for sh in shapes for inc in (False, True)]
+    if name == "graph_scale":
+        pts = (1, 2, 3) if h.TIER == "thorough" else (1, 2)
+        return [(n, p, u) for n in range(len(cr.NAMINGS)) for p in pts for u in (False, True)]
+    if name == "hist_to_graph":
+        return [(sh, m, sc) for sh in shapes for m in (0, 1, 2) for sc in (False, True)]
+    raise KeyError(name)
+
+
+def _real(name, budget):
+    from harness import c12_real as cr
+    cases = _real_cases(name)
+    mine = [c for i, c in enumerate(cases) if i % h.SHARD_N == h.SHARD_I]
+    return cr.run_cases(name, mine, budget)
+
+
+def real_hist_scale(budget):
+    return _real("hist_scale", budget)
+
+
+def real_hist_add(budget):
+    return _real("hist_add", budget)
+
+
+def real_set_nevents(budget):
+    return _real("set_nevents", budget)
+
+
+def real_graph_scale(budget):
+    return _real("graph_scale", budget)
+
+
+def real_hist_to_graph(budget):
+    return _real("hist_to_graph", budget)
+
+
 CONDITIONS = [
-    dict(fn="check_hist_scale", shards=(4, 9), budget=(80, 900),
+    dict(fn="real_hist_scale", custom=True, shards=(2, 4), budget=(60, 600)),
+    dict(fn="real_hist_add", custom=True, shards=(2, 4), budget=(60, 600)),
+    dict(fn="real_set_nevents", custom=True, shards=(2, 4), budget=(60, 600)),
+    dict(fn="real_graph_scale", custom=True, shards=(2, 4), budget=(60, 600)),
+    dict(fn="real_hist_to_graph", custom=True, shards=(2, 4), budget=(60, 600)),
+    dict(fn="check_hist_scale", shards=(4, 9), budget=(150, 900),
          smoke=["check_hist_scale(1, 2, 1, 1, 0, False, 5, 2, False)", "check_hist_scale(2, 2, 2, 1, 1, True, -3, 0, True)"]),
     dict(fn="check_hist_zero_scale", budget=(60, 300), smoke=["check_hist_zero_scale(2, 2, 1, 4)"]),
-    dict(fn="check_hist_add", shards=(4, 9), budget=(80, 900),
+    dict(fn="check_hist_add", shards=(16, 36), budget=(80, 900),
          smoke=["check_hist_add(1, 2, 1, 1, 0, 1, False, 2, 0)", "check_hist_add(2, 2, 2, 1, 0, 1, True, -1, 1)",
                 "check_hist_add(1, 2, 1, 1, 0, 1, False, 2, 2)", "check_hist_add(2, 2, 2, 1, 0, 1, False, 2, 3)"]),
     dict(fn="check_set_nevents", shards=(4, 9), budget=(80, 900),
          smoke=["check_set_nevents(2, 2, 2, 1, 1, 5, True)"]),
     dict(fn="check_graph_scale", shards=(4, 11), budget=(80, 900),
          smoke=["check_graph_scale(4, 2, 2, 5)", "check_graph_scale(7, 2, 3, -1)", "check_graph_scale(1, 2, -2, 4)", "check_graph_scale(9, 2, 2, 6)"]),
-    dict(fn="hunt_hist_scale", kind="bughunt", no_twin=True, budget=(40, 300),
+    dict(fn="hunt_hist_scale", kind="bughunt", no_twin=True, budget=(40, 300), tiers=("thorough",),
          smoke=["hunt_hist_scale(2, 2, 2, 1, True, -3.5)"]),
-    dict(fn="hunt_graph_scale", kind="bughunt", no_twin=True, budget=(40, 300),
+    dict(fn="hunt_graph_scale", kind="bughunt", no_twin=True, budget=(40, 300), tiers=("thorough",),
          smoke=["hunt_graph_scale(7, 2, 3, -1.5)"]),
     dict(fn="check_hist_to_graph", budget=(80, 600),
          smoke=["check_hist_to_graph(1, 3, 1, 0, 2, True)", "check_hist_to_graph(2, 2, 2, 1, 0, False)"]),
